@@ -4,9 +4,12 @@ package ociunify
 
 import (
 	"context"
+	"errors"
 
 	"cuelabs.dev/go/oci/ociregistry"
 )
+
+var errC16Close = errors.New("close failed")
 
 func VerifC16_ConcurrentRead() {
 	m0 := &c15member{id: 0, ok: verifBool("member0ok"), digest: "sha256:aaaa", waitCancel: verifBool("member0waitsForCancel")}
@@ -69,7 +72,12 @@ func VerifC16_ConcurrentRead() {
 			if !cancelled {
 				verifAssert(chosen.ctx.Err() == nil, "winners-context-live-until-close")
 			}
-			rd.Close()
+			// the member's reader may fail to close cleanly: the context is released anyway
+			if verifBool("memberCloseFails") {
+				chosen.closeErr = errC16Close
+			}
+			cerr := rd.Close()
+			verifAssert((cerr != nil) == (chosen.closeErr != nil), "close-error-is-the-members")
 			verifAssert(chosen.closed == 1, "close-reaches-the-member-reader")
 			verifAssert(chosen.ctx.Err() != nil, "winners-context-cancelled-after-close")
 		}
